@@ -59,6 +59,27 @@ def gen_cases(rng, tier):
         spec["kind"] = "loop"
         k += 1
         yield spec
+    # PBT warm starts: a population that keeps exploiting until max_t, which sits at the end of a perturbation interval
+    # in most cases, checkpoints deleted at STOP, few other ways for the run to end
+    k = 0
+    while k < (40 if tier == "quick" else 400):
+        spec = loop.gen_spec(rng, tier)
+        if spec["backend"] != "script":
+            continue
+        iv = rng.choice([1, 2, 2, 3])
+        spec["scheduler"] = {"kind": "pbt", "mode": rng.choice(["min", "max"]), "perturbation_interval": iv,
+                             "population_size": rng.choice([2, 3, 4]), "quantile_fraction": rng.choice([0.25, 0.34, 0.5])}
+        spec["max_t"] = iv * rng.choice([2, 3]) if rng.random() < 0.7 else rng.choice([3, 4, 5, 6, 9])
+        spec["n_workers"] = rng.randint(2, 5)
+        spec["delete_checkpoints"] = True
+        spec["inject"] = None
+        spec["criterion"] = {"max_num_trials_started": rng.randint(6, 14)}
+        bp = spec.get("backend_params") or {}
+        bp.update({"p_fail": 0.0, "p_extstop": 0.0, "short_runs": None})
+        spec["backend_params"] = bp
+        spec["kind"] = "loop"
+        k += 1
+        yield spec
     for _ in range(20 if tier == "quick" else 300):
         typ = rng.choice(["promotion", "promotion", "pasha", "cost_promotion", "rush_promotion"])
         c = gen_ctor(rng, typ)
